@@ -33,12 +33,12 @@ pub struct TransferFromParams { pub from: Address, pub to: Address, pub amount: 
     ensures
         // "transfers only to/from governor"
         r.is_ok() ==> to_address == old(st).governor || *from == old(st).governor,
-        !(to_address == old(st).governor || *from == old(st).governor) ==> r.is_err() && r->Err_0.code == 18 && *final(st) == *old(st) && *final(rt) == *old(rt),
+        !(to_address == old(st).governor || *from == old(st).governor) ==> r.is_err() && *final(st) == *old(st) && *final(rt) == *old(rt),
 //@ end
 //@ fn actors/datacap/src/lib.rs Actor::transfer_from closure=0 as=transfer_from_tx0 params="st: &mut State, rt: &mut Rt, operator: Address, from: Address, to_address: Address, params: &TransferFromParams" retty="Result<VxOpaque, ActorError>" prefix="if ! allowed"
     ensures
         r.is_ok() ==> to_address == old(st).governor,
-        to_address != old(st).governor ==> r.is_err() && r->Err_0.code == 18 && *final(st) == *old(st) && *final(rt) == *old(rt),
+        to_address != old(st).governor ==> r.is_err() && *final(st) == *old(st) && *final(rt) == *old(rt),
 //@ end
 } // verus!
 fn main() {}
